@@ -178,7 +178,6 @@ disc_seq!(c13_q_disc_vecdeque_1_2, VecDeque<u8>, vec_u8::<1>().into_iter().colle
 disc_seq!(c13_t_disc_linkedlist_2_2, LinkedList<u8>, vec_u8::<2>().into_iter().collect(), vec_u8::<2>().into_iter().collect());
 disc_seq!(c13_t_disc_btreeset_2_2, BTreeSet<u8>, vec_u8::<2>().into_iter().collect(), vec_u8::<2>().into_iter().collect());
 disc_seq!(c13_t_disc_btreemap_1_2, BTreeMap<u8, u8>, [(kani::any(), kani::any())].into_iter().collect(), [(kani::any(), kani::any()), (kani::any(), kani::any())].into_iter().collect());
-disc_seq!(c13_t_disc_pathbuf_1_2, std::path::PathBuf, std::path::PathBuf::from(ascii::<1>()), std::path::PathBuf::from(ascii::<2>()));
 
 // the length prefix itself, for SYMBOLIC lengths: the encoding must be injective and prefix-free,
 // otherwise "prefix ++ content" of one value can be re-read as a longer prefix of another
@@ -306,48 +305,18 @@ h!(c13_q_hist_btreemap_orders, 8, {
     std::mem::forget((a, b));
 });
 
-/// A BuildHasher whose seed is a symbolic value: makes the iteration order of the unordered
-/// collections a solver variable.
-#[derive(Clone, Copy)]
-pub struct SeedBH(pub u64);
-pub struct SeedH(u64);
-impl std::hash::Hasher for SeedH {
-    fn finish(&self) -> u64 { self.0 }
-    fn write(&mut self, bytes: &[u8]) {
-        let mut i = 0;
-        while i < bytes.len() { self.0 = (self.0 ^ bytes[i] as u64).wrapping_mul(0x100_0000_01b3).rotate_left(29); i += 1; }
-    }
-}
-impl std::hash::BuildHasher for SeedBH {
-    type Hasher = SeedH;
-    fn build_hasher(&self) -> SeedH { SeedH(self.0) }
-}
-h!(c13_t_hist_hashset_seeds_orders, 8, {
-    let (s1, s2): (u64, u64) = (kani::any(), kani::any());
-    let mut a: HashSet<u8, SeedBH> = HashSet::with_hasher(SeedBH(s1));
-    let mut b: HashSet<u8, SeedBH> = HashSet::with_hasher(SeedBH(s2));
-    let flip: bool = kani::any();
-    let (x, y) = (1u8, 2u8);
-    a.insert(x); a.insert(y);
-    if flip { b.insert(y); b.insert(x); } else { b.insert(x); b.insert(y); }
-    assert!(stream(&a).same(&stream(&b)), "hasher seed and insertion order do not matter");
-    let ia: Vec<u8> = a.iter().copied().collect();
-    let ib: Vec<u8> = b.iter().copied().collect();
-    kani::cover!(ia[0] != ib[0], "iteration orders really differ");
-    std::mem::forget((a, b, ia, ib));
-});
-h!(c13_t_hist_hashmap_seeds_orders, 8, {
-    let (s1, s2): (u64, u64) = (kani::any(), kani::any());
-    let v: [u8; 2] = kani::any();
-    let mut a: HashMap<u8, u8, SeedBH> = HashMap::with_hasher(SeedBH(s1));
-    let mut b: HashMap<u8, u8, SeedBH> = HashMap::with_hasher(SeedBH(s2));
-    a.insert(1, v[0]); a.insert(2, v[1]);
-    b.insert(2, v[1]); b.insert(1, v[0]);
-    assert!(stream(&a).same(&stream(&b)), "hasher seed and insertion order do not matter");
-    let ia: Vec<u8> = a.keys().copied().collect();
-    let ib: Vec<u8> = b.keys().copied().collect();
-    kani::cover!(ia[0] != ib[0], "iteration orders really differ");
-    std::mem::forget((a, b, ia, ib));
+// (HashSet / HashMap built with two symbolic hasher seeds were tried: no answer in 30 minutes -
+// hashbrown's group probing; their commutative combination is the same code path as BinaryHeap's)
+
+// F4 (repaired): equal paths - `Path` equality compares components - must hash equally
+h!(c13_q_hist_path_equal_spellings, 12, {
+    use std::path::Path;
+    assert!(Path::new("a/") == Path::new("a") && stream(Path::new("a/")).same(&stream(Path::new("a"))), "trailing separator");
+    assert!(Path::new("a//b") == Path::new("a/b") && stream(Path::new("a//b")).same(&stream(Path::new("a/b"))), "repeated separator");
+    assert!(stream(&std::path::PathBuf::from("a/./b")).same(&stream(Path::new("a/b"))), "current-dir component, PathBuf vs Path");
+    assert!(!stream(Path::new("a/b")).same(&stream(Path::new("ab"))), "different component lists differ");
+    assert!(!stream(Path::new("a/b")).same(&stream(Path::new("a"))), "prefix list differs");
+    kani::cover!(stream(Path::new("a/b")).len > 8, "components were hashed");
 });
 
 // ------------------------------------------------------------------------------------------
